@@ -217,3 +217,31 @@ func H_C08_loadonly() {
 	}
 	VReach("end")
 }
+
+// C08.maporder — "never depends on anything but the bytes": the diagnostic of a rejected program must not depend on
+// the iteration order of a Go map inside the compiler (goto/label bookkeeping lives in maps).  The engine forks over
+// every rotation of the iteration order of each map with 2..maporder live entries that the code ranges over
+// (parameter `maporder`), independently for the two loads below, and the two diagnostics must agree.  Not replayed
+// natively: the Go runtime picks the order itself (`nonative`).  Session-2 seeded change C08-unresolved-goto-map-order.
+var c08MapOrder = []string{
+	"goto a; goto b",
+	"do goto a end; do goto b end; goto c",
+	"local function f() goto x; goto y end; goto z",
+	"::l1:: ::l2:: goto l1; goto l2; goto m1; goto m2",
+	"::a:: ::a::",
+	"do ::a:: end ::b:: goto a; goto b; goto c",
+	"for i = 1, 2 do goto continue; goto other end",
+}
+
+//verif:harness prop=C08 tier=quick nonative qparams=maporder:4 tparams=maporder:6 bounds="7 rejected programs with two or more unresolved gotos / duplicate labels in one or several functions and blocks, each loaded twice; every rotation of the iteration order of every ranged-over map with 2..4 (quick) / 2..6 (thorough) live entries, chosen independently per load; rotations only (not all permutations)"
+func H_C08_maporder() {
+	src := c08MapOrder[VChoice(len(c08MapOrder))]
+	L := newL(Options{}, BaseLibName)
+	_, err1 := L.LoadString(src)
+	_, err2 := L.LoadString(src)
+	VAssert(err1 != nil && err2 != nil, "maporder: the program is rejected: "+src)
+	if err1 != nil && err2 != nil {
+		VAssert(err1.Error() == err2.Error(), "maporder: the diagnostic depends only on the bytes, not on map iteration order: "+src)
+	}
+	VReach("end")
+}
